@@ -701,6 +701,22 @@ public:
     return nullptr;
   }
 
+  // Second layer: the first main-level steps of each worker are written out; bin/check repeats them
+  // with the real executables under MALLOC_PERTURB_, environment sizes and ASLR on/off.
+  int obsLeft = -1;
+  void dumpStep(const std::vector<std::string> &argv, const std::string &srcName, const std::string &src) {
+    if (obsLeft < 0) { const char *n = getenv("VERIF_OBS_COUNT"); obsLeft = n ? std::atoi(n) : 0; }
+    const char *path = getenv("VERIF_OBS_FILE");
+    if (obsLeft <= 0 || !path || src.size() > 20000) return;
+    obsLeft--;
+    Json j = Json::object();
+    Json av = Json::array(); for (auto &a : argv) av.push(a);
+    j["argv"] = av; j["src_name"] = srcName; j["src_hex"] = sim::toHex(src);
+    std::string line = j.dump() + "\n";
+    int fd = ::open(path, O_WRONLY | O_CREAT | O_APPEND, 0644);
+    if (fd >= 0) { ssize_t w = ::write(fd, line.data(), line.size()); (void)w; ::close(fd); }
+  }
+
   StepRes runStep(const std::string &tool, const std::string &action, const std::string &via, const std::string &src, const Host &h) {
     StepRes res;
     sim::fs::reset();
@@ -718,6 +734,7 @@ public:
       if (isX) { if (const char *f = xFlag(action)) argv.push_back(f); }
       else { if (action == "instrs") argv.push_back("--instrs"); if (action == "tokens") argv.push_back("--tokens"); }
       argv.push_back("-o"); argv.push_back("out.bin");
+      if (!h.pristine()) dumpStep(argv, srcName, src);
       std::vector<const char *> av;
       for (auto &a : argv) av.push_back(a.c_str());
       av.push_back(nullptr);
